@@ -73,7 +73,7 @@ def _hints(ctx, st, ks):
 
 
 from_data = Contract("C03.MultiLineFastaBuffer.from_data[line table]", target=lambda: _F().from_data.__func__, setup=_setup, requires=_req, ensures=_ens,
-                     hints=_hints, timeout_ms=120000, stop_after="line_lengths[entry_starts[1:]-1] = last_length + 1",
+                     hints=_hints, timeout_ms=120000, rounds=2, stop_after="line_lengths[entry_starts[1:]-1] = last_length + 1",
                      decorators={"@classmethod": "receiver is the class (its n_characters_per_line made symbolic)"},
                      note="PREFIX of the function: verified up to and including `line_lengths[entry_starts[1:]-1] = last_length + 1`",
                      canaries=[("multiple of W gets an extra empty line", "(sequence_lengths-1) // (cls.n_characters_per_line) + 1", "(sequence_lengths) // (cls.n_characters_per_line) + 1"),
